@@ -19,6 +19,7 @@ import (
 	"vh/opgen"
 	"vh/plan"
 	"vh/proj"
+	"vh/scalars"
 	"vh/univ"
 	"vh/vfrun"
 )
@@ -126,7 +127,7 @@ func (ev *evaluator) firstIntArg(s *ast.Field) int64 {
 }
 
 func (ev *evaluator) field(obj string, s *ast.Field, child *big.Int) *big.Int {
-	if spec, ok := ev.specs[obj+"."+s.Name]; ok {
+	if spec, ok := ev.specs[obj+"."+scalars.Canonical(obj, s.Name)]; ok {
 		x := ev.firstIntArg(s)
 		if x < 0 {
 			x = 0
